@@ -1536,6 +1536,7 @@ fn body(run: &Run, replay: Option<&Value>) {
     space_tk_chain(&ctx);
     space_real(&ctx);
     space_corrupt(&ctx);
+    space_declared(&ctx);
     space_unsorted(&ctx);
     if run.tier == Tier::Thorough {
         space_four(&ctx);
@@ -1581,6 +1582,10 @@ fn replay_case(ctx: &Ctx, case: &Value) {
             space_misc(ctx);
         }
         "tk-chain" => space_tk_chain(ctx),
+        "decl" => {
+            let dc: DeclCase = serde_json::from_value(case["decl"].clone()).expect("decl");
+            run_decl(ctx, &dc, &mut l);
+        }
         "corrupt" => space_corrupt(ctx),
         _ => println!("unknown replay kind {kind}"),
     }
@@ -2737,4 +2742,220 @@ fn space_four(ctx: &Ctx) {
         explore_scenario(ctx, &scenarios[i], &mut l);
         ctx.merge(l);
     });
+}
+
+// ---------------------------------------------------------------------------
+// declared-length boundaries x stream validity through the real decoder
+// ---------------------------------------------------------------------------
+
+#[derive(Clone, Debug, Serialize, Deserialize)]
+pub struct DeclCase {
+    /// "tk-replace", "tk-diff", "tk-second" (boundary on the second table entry), "gk-glyf", "gk-gvar"
+    pub target: String,
+    /// "valid", "valid-empty", "truncated", "corrupt", "trailing", "empty"
+    pub stream: String,
+    pub declared: u32,
+}
+
+/// (stream bytes, Some(decoded) when the stream is a valid and complete brotli encoding)
+fn stream_variant(kind: &str, valid: &[u8], decoded: &[u8]) -> (Vec<u8>, Option<Vec<u8>>) {
+    match kind {
+        "valid" => (valid.to_vec(), Some(decoded.to_vec())),
+        "valid-empty" => (brotli::stored(&[], 16, 1 << 16), Some(vec![])),
+        "truncated" => (valid[..valid.len() - 1].to_vec(), None),
+        "corrupt" => {
+            // non-zero padding bits after the final empty meta-block
+            let mut v = valid.to_vec();
+            *v.last_mut().unwrap() |= 0x80;
+            (v, None)
+        }
+        "trailing" => {
+            let mut v = valid.to_vec();
+            v.push(0);
+            (v, None)
+        }
+        _ => (vec![], None),
+    }
+}
+
+const STREAM_KINDS: [&str; 6] = ["valid", "valid-empty", "truncated", "corrupt", "trailing", "empty"];
+
+fn declared_lengths(len: usize) -> Vec<u32> {
+    let mut v = vec![0u32, 1, len.saturating_sub(1) as u32, len as u32, len as u32 + 1, u32::MAX];
+    v.sort();
+    v.dedup();
+    v
+}
+
+fn run_decl(ctx: &Ctx, dc: &DeclCase, l: &mut Local) {
+    use incremental_font_transfer::patchmap::SubsetDefinition;
+    let case = json!({"kind":"decl","decl": dc});
+    l.evals += 1;
+    l.applies += 1;
+    let ident = |what: &str| format!("declared max length {} / {} stream: {what}: {}", match dc.declared { 0 => "0".to_string(), u32::MAX => "u32::MAX".to_string(), _ => "near the decoded length".to_string() }, dc.stream, dc.target);
+    if dc.target.starts_with("tk") {
+        let (font, base_tables, uri) = tk_base(false, 2);
+        let payload = b"declared-length payload".to_vec();
+        let (valid, decoded): (Vec<u8>, Vec<u8>) = if dc.target == "tk-diff" {
+            let b = &base_tables[b"tab2"];
+            let mut out = b[b.len() - 7..].to_vec();
+            out.extend_from_slice(&payload);
+            (brotli::dict_copy_then_stored(7, 7, &payload, 16), out)
+        } else {
+            (brotli::stored(&payload, 16, 1 << 16), payload.clone())
+        };
+        let (stream, dec) = stream_variant(&dc.stream, &valid, &decoded);
+        let (tag, op) = if dc.target == "tk-diff" { (*b"tab2", TableOp::Diff(stream)) } else { (*b"tab1", TableOp::Replace(stream)) };
+        let other = b"other table".to_vec();
+        let (ops, lens) = if dc.target == "tk-second" {
+            (vec![(*b"tab4", TableOp::Replace(brotli::stored(&other, 16, 1 << 16))), (tag, op)], vec![other.len() as u32, dc.declared])
+        } else {
+            (vec![(tag, op)], vec![dc.declared])
+        };
+        let patch = table_keyed_patch_lens(COMPAT_IFT, &ops, &lens);
+        let want_ok = matches!(&dec, Some(d) if d.len() as u64 <= dc.declared as u64);
+        let mut want = base_tables.clone();
+        if want_ok {
+            want.insert(tag, dec.clone().unwrap());
+            if dc.target == "tk-second" {
+                want.insert(*b"tab4", other.clone());
+            }
+        }
+        let decoder = Decoder::real(None);
+        let mut map: HashMap<String, UriStatus> = HashMap::new();
+        map.insert(uri.clone(), UriStatus::Pending(patch));
+        let before = snapshot(&map);
+        let sd = SubsetDefinition::codepoints([0x41u32].into_iter().collect());
+        let r = guard(|| {
+            let fr = FontRef::new(&font).unwrap();
+            let g = PatchGroup::select_next_patches(fr, &sd).unwrap();
+            g.apply_next_patches_with_decoder(&mut map, &decoder)
+        });
+        let after = snapshot(&map);
+        match r {
+            Err(p) => ctx.run.violation(&format!("table keyed apply panics: {} at {}", p.kind(), p.site()), &p.message, case),
+            Ok(Err(e)) => {
+                if after != before {
+                    ctx.run.violation(&ident("UriStatus map modified although the call failed"), &format!("{e:?}"), case.clone());
+                }
+                if want_ok {
+                    ctx.run.violation(&ident("rejected although the stream is valid and fits"), &format!("{e:?}"), case);
+                }
+                l.all.insert(digest_of(&("decl-err", &dc.target, &dc.stream, dc.declared.min(3), err_class(&e))));
+            }
+            Ok(Ok(new_font)) => {
+                if !want_ok {
+                    ctx.run.violation(
+                        &ident("accepted although the stream is not a valid encoding of at most the declared number of bytes"),
+                        &format!("decoded length {:?}, declared {}", dec.as_ref().map(|d| d.len()), dc.declared),
+                        case,
+                    );
+                    return;
+                }
+                match table_map(&new_font) {
+                    Ok(m) if m == want => {}
+                    other => ctx.run.violation(
+                        &ident("table keyed result: patched table is not the decoded replacement/diff"),
+                        &format!("{:?}", other.map(|m| m.get(&tag).map(|v| hex(v)))),
+                        case,
+                    ),
+                }
+                let dg = digest_of(&("decl-ok", &dc.target, &dc.stream, dc.declared.min(3)));
+                l.all.insert(dg);
+                l.nontrivial.insert(dg);
+            }
+        }
+    } else {
+        let kind = if dc.target == "gk-gvar" { BaseKind::GvarShort } else { BaseKind::GlyfLong };
+        let spec = base_specs().into_iter().find(|s| s.kind == kind).unwrap();
+        let tables = tables_for(kind)[0].clone();
+        let sc = Scenario {
+            base: spec,
+            mapping: Mapping::F2,
+            patches: vec![gk_patch(0, &[1, 3], &tables, false, COMPAT_IFT)],
+            note: "declared".into(),
+            real_brotli: true,
+        };
+        let built = build_scenario(&sc, &[1]);
+        let p = &sc.patches[0];
+        let body = glyph_keyed_body(p.wide, &p.gids, &p.tables, &p.data);
+        let valid = brotli::stored(&body, 16, 1 << 16);
+        let (stream, dec) = stream_variant(&dc.stream, &valid, &body);
+        let patch = glyph_keyed_wrap(p.compat, p.wide, &stream, dc.declared);
+        // an empty body is not a GlyphPatches table: only the full body can be applied
+        let want_ok = matches!(&dec, Some(d) if d == &body && d.len() as u64 <= dc.declared as u64);
+        let decoder = Decoder::real(None);
+        let mut map: HashMap<String, UriStatus> = HashMap::new();
+        map.insert(built.uris[0].clone(), UriStatus::Pending(patch));
+        let before = snapshot(&map);
+        let sd = SubsetDefinition::codepoints(built.cps.iter().copied().collect());
+        let r = guard(|| {
+            let fr = FontRef::new(&built.font).unwrap();
+            let g = PatchGroup::select_next_patches(fr, &sd).unwrap();
+            g.apply_next_patches_with_decoder(&mut map, &decoder)
+        });
+        let after = snapshot(&map);
+        match r {
+            Err(pn) => ctx.run.violation(&format!("apply_next_patches_with_decoder panics: {} at {}", pn.kind(), pn.site()), &pn.message, case),
+            Ok(Err(e)) => {
+                if after != before {
+                    ctx.run.violation(&ident("UriStatus map modified although the call failed"), &format!("{e:?}"), case.clone());
+                }
+                if want_ok {
+                    ctx.run.violation(&ident("rejected although the stream is valid and fits"), &format!("{e:?}"), case);
+                }
+                l.all.insert(digest_of(&("decl-err", &dc.target, &dc.stream, dc.declared.min(3), err_class(&e))));
+            }
+            Ok(Ok(new_font)) => {
+                if !want_ok {
+                    ctx.run.violation(
+                        &ident("accepted although the stream is not a valid encoding of at most the declared number of bytes"),
+                        &format!("declared {}", dc.declared),
+                        case,
+                    );
+                    return;
+                }
+                let mut want = built.reference.clone();
+                let mut compat = HashMap::new();
+                compat.insert(IFT, COMPAT_IFT);
+                let _ = ref_apply_gk(&mut want, &[p], &[(IFT, built.bits[0])], &compat, &[IFT]);
+                if let Err((class, detail)) = compare(&new_font, &want) {
+                    ctx.run.violation(&ident(&format!("glyph keyed result: {class}")), &detail, case);
+                }
+                let dg = digest_of(&("decl-ok", &dc.target, &dc.stream, dc.declared.min(3)));
+                l.all.insert(dg);
+                l.nontrivial.insert(dg);
+            }
+        }
+    }
+}
+
+fn space_declared(ctx: &Ctx) {
+    let mut cases = vec![];
+    // decoded lengths: replace payload 23, diff 7 + 23; glyph keyed bodies are computed per target
+    for (target, len) in [("tk-replace", 23usize), ("tk-diff", 30), ("tk-second", 23)] {
+        for s in STREAM_KINDS {
+            for d in declared_lengths(len) {
+                cases.push(DeclCase { target: target.into(), stream: s.into(), declared: d });
+            }
+        }
+    }
+    for (target, kind) in [("gk-glyf", BaseKind::GlyfLong), ("gk-gvar", BaseKind::GvarShort)] {
+        let tables = tables_for(kind)[0].clone();
+        let p = gk_patch(0, &[1, 3], &tables, false, COMPAT_IFT);
+        let len = glyph_keyed_body(p.wide, &p.gids, &p.tables, &p.data).len();
+        for s in STREAM_KINDS {
+            for d in declared_lengths(len) {
+                cases.push(DeclCase { target: target.into(), stream: s.into(), declared: d });
+            }
+        }
+    }
+    ctx.run.count("declared_length_boundary_cases", cases.len() as u64);
+    ctx.run.sample(json!({"space":"decl","case": cases[7]}));
+    // sequential: the C wrapper allocates the declared number of bytes (4 GiB of untouched pages for u32::MAX)
+    let mut l = Local::default();
+    for c in &cases {
+        run_decl(ctx, c, &mut l);
+    }
+    ctx.merge(l);
 }
